@@ -94,7 +94,7 @@ CHECKS = {
  "C20": ("model_checking",
          "exhaustive enumeration of client-visible shutdown histories on the real process + explicit-state exploration (spin) of a Promela model of the protocol with outcome conformance",
          "DESIGN.md §4 C20",
-         "All histories (5 session states x 10 orders of LSP shutdown/exit, DAP disconnect, a debugger attaching after shutdown / after exit / after the pipe was closed, closing stdin/TCP x gap patterns) are run twice against the real `mos lsp` process over stdio and TCP: exit status 0 within 5 s, debug port free afterwards, no panic. A Promela model of Main/DebugThread/Client/context mutex is explored exhaustively by spin (all interleavings, no invalid end state; polling loops modelled as blocking so that a livelock shows as a hang); every observed outcome must be in the model's outcome set for that history, and the model of the protocol before repair 8dc9ff0 must reach the hang (self-test).",
+         "All histories (6 session states - no debugger, attached idle, test launched but not started, running, paused, finished - x 11 orders of LSP shutdown/exit, DAP disconnect with and without arguments, a debugger attaching after shutdown / after exit / after the pipe was closed, closing stdin/TCP x gap patterns) are run twice against the real `mos lsp` process over stdio and TCP: exit status 0 within 5 s, debug port free afterwards, no panic. A Promela model of Main/DebugThread/Client/context mutex is explored exhaustively by spin (all interleavings, no invalid end state; polling loops modelled as blocking so that a livelock shows as a hang); every observed outcome must be in the model's outcome set for that history, and the model of the protocol before repair 8dc9ff0 must reach the hang (self-test).",
          "Timing inside the real process is a finite gap menu, not controlled; the hand-written model is bound to the code by outcome conformance only; 'promptly' = 5 s."),
  "C04": ("fault_enumeration",
          "exhaustive single-fault injection: fault classes x every statement slot of every base program (contexts incl. imported file), in-process location oracle + real-binary exit/stdout/target-directory oracle",
